@@ -34,6 +34,12 @@ type Faults struct {
 	PAckLost    float64
 	PStoreFail  float64
 
+	// SlowLink: on every connection, for good, the first Write of each packet
+	// expires after some progress and the continuation goes through: no fault,
+	// just a link on which a packet takes longer than one PauseTimeout.
+	SlowLink bool
+	slowLast map[*sim.Conn]bool
+
 	Fired map[string]int
 	Armed bool // store faults apply (after session set-up)
 	Off   bool // no faults at all (prelude)
@@ -59,6 +65,17 @@ func (f *Faults) Heal(w *sim.World) {
 
 func (f *Faults) install(w *sim.World) {
 	w.WritePlan = func(c *sim.Conn, p []byte) sim.WriteDecision {
+		if f.SlowLink && !f.Off {
+			if f.slowLast == nil {
+				f.slowLast = map[*sim.Conn]bool{}
+			}
+			if len(p) > 1 && !f.slowLast[c] {
+				f.slowLast[c] = true
+				f.fire("write.slow-link", false)
+				return sim.WriteDecision{Accept: 1 + w.Rng.Intn(len(p)-1), Then: "timeout"}
+			}
+			f.slowLast[c] = false
+		}
 		if f.Off {
 			return sim.WriteDecision{Accept: -1}
 		}
@@ -438,8 +455,19 @@ func (ep *Episode) Adopt() (warn []error, fatal error) {
 // awaitOrDiagnose waits for cond; when it does not arrive the world is
 // diagnosed. It returns "" on success, "wedged" or "slow".
 func (ep *Episode) awaitOrDiagnose(what string, cond func() bool) (string, string) {
+	ep.W.Mu.Lock()
+	dials0 := ep.W.Dials
+	ep.W.Mu.Unlock()
 	if ep.W.WaitUntil(sim.StepTimeout, cond) {
 		return "", ""
+	}
+	ep.W.Mu.Lock()
+	dials1 := ep.W.Dials
+	ep.W.Mu.Unlock()
+	if dials1-dials0 > 200 {
+		// faults are over, yet the client goes from connection to connection
+		// without getting anywhere: that is no slowness
+		return "wedged", fmt.Sprintf("%s\nthe client dialled %d times within the watchdog without reaching the condition (reconnect loop)", what, dials1-dials0)
 	}
 	for i := 0; i < 4; i++ {
 		wedged, report := ep.W.Diagnose(1500 * time.Millisecond)
